@@ -285,7 +285,7 @@ def validate(r, runs, thorough):
                 continue    # the execution itself stopped (reported below)
             nxt = w.trace[x["matched"]] if x["matched"] < len(w.trace) else None
             r.notes.setdefault("drift", []).append({"script": s["label"], "at": x["matched"], "record": _brief(nxt)})
-        if len(r.notes.get("drift", [])) > max(2, len(runs) // 20):
+        if len(r.notes.get("drift", [])) > max(2, len(runs) // 20) and not r.violations:
             raise core.MachineryError("E2E.tla's server model does not match the server double on %d traces: %s" % (len(r.notes["drift"]), r.notes["drift"][:3]))
     for s, w, o in runs:
         if o is not None:
